@@ -280,12 +280,15 @@ class Top(Val):
 
 
 class IntV(Val):
-    __slots__ = ("ty", "bits", "lo", "hi", "aff", "deps", "sid", "term", "vset")
+    __slots__ = ("ty", "bits", "lo", "hi", "aff", "deps", "sid", "term", "vset", "ftab")
     kind = "int"
 
-    def __init__(self, ty, bits=None, lo=None, hi=None, aff=None, deps=None, sid=None, term=None, vset=None):
+    def __init__(self, ty, bits=None, lo=None, hi=None, aff=None, deps=None, sid=None, term=None, vset=None, ftab=None):
         self.ty = ty
         self.vset = vset
+        # ftab = (atoms, vals): the value as an explicit function of a few frame bits - vals[a] is the value under the
+        # assignment a (bit i of a = frame bit atoms[i]); None where the value is undefined (e.g. the operation overflowed)
+        self.ftab = ftab
         w, signed = INT_TYPES[ty]
         tlo, thi = ty_range(ty)
         if bits is not None:
@@ -328,6 +331,13 @@ class IntV(Val):
                     d |= set(a[1])
                 else:
                     d.add(a)
+        if ftab is not None:
+            fv = [x for x in ftab[1] if x is not None]
+            if fv:
+                self.lo, self.hi = max(self.lo, min(fv)), min(self.hi, max(fv))
+                if self.lo > self.hi:
+                    self.lo = self.hi = fv[0]
+            d |= set(ftab[0])
         self.deps = frozenset(d)
         self.sid = sid
         self.term = term
@@ -388,14 +398,14 @@ class IntV(Val):
         hi = min(hi, self.hi)
         if lo == self.lo and hi == self.hi:
             return self
-        v = IntV(self.ty, self.bits, lo, hi, self.aff, self.deps, self.sid, self.term, self.vset)
+        v = IntV(self.ty, self.bits, lo, hi, self.aff, self.deps, self.sid, self.term, self.vset, self.ftab)
         if lo == hi and lo >= 0 and self.bits is None:
             return IntV.const(self.ty, lo)._with(sid=self.sid, deps=self.deps)
         return v
 
     def _with(self, **kw):
         d = dict(ty=self.ty, bits=self.bits, lo=self.lo, hi=self.hi, aff=self.aff, deps=self.deps, sid=self.sid, term=self.term,
-                 vset=self.vset)
+                 vset=self.vset, ftab=self.ftab)
         d.update(kw)
         return IntV(**d)
 
@@ -403,6 +413,8 @@ class IntV(Val):
         if self.is_const():
             return "%s:%d" % (self.ty, self.lo)
         a = self.affine()
+        if a is None and self.ftab is not None:
+            return "%s:[%d,%d] fn(bits %s)" % (self.ty, self.lo, self.hi, list(self.ftab[0]))
         return "%s:[%d,%d]%s" % (self.ty, self.lo, self.hi, (" =" + a.show()) if a is not None and len(a.t) <= 16 else (" deps%s" % sorted(self.deps, key=str)[:8]))
 
 
@@ -519,6 +531,21 @@ class RefV(Val):
 
     def __repr__(self):
         return "&%s%s%s" % ("mut " if self.mut else "", self.cell, "".join("." + str(p) for p in self.proj))
+
+
+class ChoiceV(Val):
+    """`one` if the frame-bit expression `bit` is 1, else `zero` (from the if-conversion of a branch that picks between two
+    references / tables); read-only"""
+    __slots__ = ("bit", "one", "zero")
+    kind = "choice"
+
+    def __init__(self, bit, one, zero):
+        self.bit = bit
+        self.one = one
+        self.zero = zero
+
+    def __repr__(self):
+        return "choice(%r ? %r : %r)" % (self.bit, self.one, self.zero)
 
 
 class VecV(Val):
@@ -654,6 +681,12 @@ def show_term(t, depth=0):
 
 
 def deps_of(v):
+    if isinstance(v, ChoiceV):
+        return bit_deps(v.bit) | deps_of(v.one) | deps_of(v.zero)
+    return _deps_of(v)
+
+
+def _deps_of(v):
     if v is None:
         return frozenset()
     k = v.kind
